@@ -170,6 +170,21 @@ func TestClean(t *testing.T) {
 			c.Event("%s", l.Describe())
 			var pub *signedexchange.Exchange
 			var err error
+			if c.Chance("earlierFailedDump", 1, 4) {
+				// history: some earlier, unrelated serialization in this process hit a failing device
+				o := gen.DrawSXG(c, "earlier", 3)
+				var hb bytes.Buffer
+				oe := o.Unsigned()
+				if oe.DumpExchangeHeaders(&hb) == nil && hb.Len() > 0 {
+					fw := c.NewWriter("earlier", core.WriterPlan{FailAt: c.Int("earlier.failAt", 0, hb.Len()-1), Short: c.Bool("earlier.short")})
+					c.Guard("Exchange.DumpExchangeHeaders", func() { oe.DumpExchangeHeaders(fw) })
+					c.Probe("an earlier serialization failed part-way")
+				}
+			}
+			if c.Chance("sharedCertURL", 1, 3) {
+				// the publisher rotates certificates at one stable cert-url
+				l.CertURL = "https://cert.example/current.cbor"
+			}
 			if pi := c.Guard("publisher.Sign", func() { pub, err = l.Sign() }); pi != nil {
 				c.CheckTotal("publisher.Sign", 0, pi, 0)
 			}
@@ -177,6 +192,7 @@ func TestClean(t *testing.T) {
 				c.Violation("sign-error", "publisher", "library refused a valid exchange: %v", err)
 			}
 			net := newCertNet(c)
+			net.blobs[l.CertURL] = gen.ChainBytes(l.Leaf, []byte("ocsp-"+l.Leaf.Name))
 			// write once more through a simulated destination
 			wp := core.WriterPlan{FailAt: -1, ReaderFrom: c.Bool("dst.readerFrom")}
 			w := c.NewWriter("disk", wp)
@@ -687,6 +703,14 @@ func tamper(c *core.Ctx, w *world, l *gen.LSXG) (*signedexchange.Exchange, strin
 		if e == nil {
 			return nil, "none"
 		}
+		if c.Chance("field.onPublisherObject", 1, 4) {
+			// the edit is made on the publisher's own in-memory object, after it was
+			// signed and written (whatever that object cached must not vouch for the edit)
+			if pe, err := l.Sign(); err == nil {
+				e = pe
+				c.Probe("edit on the publisher's object after Write")
+			}
+		}
 		ops := []string{"url", "status", "header-value", "header-add", "header-remove", "header-rename", "payload-bit", "payload-truncate-record", "payload-append", "payload-and-digest", "version", "payload-swap", "payload-recordsize"}
 		if l.Version != "1b3" {
 			ops = append(ops, "method", "req-header-add")
@@ -735,6 +759,9 @@ func tamper(c *core.Ctx, w *world, l *gen.LSXG) (*signedexchange.Exchange, strin
 			if len(e.Payload) > 8+l.RS {
 				k := c.Int("field.records", 1, (len(e.Payload)-8)/(l.RS+32)+1)
 				cut := 8 + k*l.RS + (k-1)*32
+				if c.Bool("field.cutAfterProof") {
+					cut = 8 + k*(l.RS+32) // right behind a proof instead of right behind a record
+				}
 				if cut < len(e.Payload) {
 					e.Payload = e.Payload[:cut]
 					c.Probe("payload truncated exactly at a record boundary")
